@@ -99,10 +99,10 @@ def c19_case(rec, root):
     """builds files + argv for one Cli.tla configuration, runs it, returns the trace event"""
     c = rec["cfg"]
     d = tempfile.mkdtemp(dir=root)
-    V = {"a": {"valid": "2.5", "edge": "0.001", "range": "-3", "text": "abc"},
-         "am": {"valid": "4", "edge": "0.001", "range": "0", "text": "xyz"},
-         "k": {"valid": "0.5", "edge": "1", "range": "1.5", "text": "abc"},
-         "km": {"valid": "0.3", "edge": "0", "range": "-0.1", "text": "k"}}
+    V = {"a": {"valid": "2.25", "edge": "0.001", "range": "-3", "text": "abc"},
+         "am": {"valid": "4.75", "edge": "0.001", "range": "0", "text": "xyz"},
+         "k": {"valid": "0.25", "edge": "1", "range": "1.5", "text": "abc"},
+         "km": {"valid": "0.35", "edge": "0", "range": "-0.1", "text": "k"}}
     meta = []
     legacy = c.get("legacy", False)
     if c["ameta"] != "absent":
